@@ -7,6 +7,8 @@ never_oversleeps, first_attempt_immediate, attempt_only_when_due].  A plain sing
 respawns a demobilised source [standard_no_respawn_after_demobilize] and re-resolves the server name
 after an unreachable removal [standard_reresolve_after_unreachable, reresolve_history;
 standard_network_issue_keeps_resolution is the contrast case]."
+The removal reason is prepared by the system task (system.rs): system_reason_of_message and
+system_demobilise_never_respawns_standard cover that caller (MustDemobilize → Demobilized, always).
 
 Property theorems only (helper lemmas: `NtpVerif.Proofs.Spawner`).  Model: `NtpVerif.Model.Spawner`:
 `spawner_task` (ntpd/src/daemon/spawn/mod.rs) as a function `run` of ALL lists of timestamped system
@@ -220,6 +222,42 @@ theorem reresolve_history (pre mid : List SOp) (ans : Answer) (hmid : ∀ op ∈
   simp only [Std.trySpawn, hres]
   cases resolveSingle ans <;> simp
 
+/-! #### the system side: what the spawner is told when a source must demobilise -/
+
+/-- **C36.system_reason_of_message** — the system task hands the spawner exactly the reason that corresponds
+    to the source's message: `MustDemobilize` is always reported as `Demobilized` (never as a reason that
+    makes a spawner try again), network trouble and unreachability are passed on unchanged — independently of
+    the rest of the system state (the model's `Sys.msg` uses nothing but the message). -/
+theorem system_reason_of_message (s : Sys) (m : SysMsg) (src : Nat) (r : Sys × Nat × Reason × Nat)
+    (h : s.msg m src = some r) :
+    r.2.2.1 = reasonOf m ∧ reasonOf .mustDemobilize = .demobilized ∧
+    reasonOf .networkIssue = .networkIssue ∧ reasonOf .unreachable = .unreachable := by
+  refine ⟨?_, rfl, rfl, rfl⟩
+  unfold Sys.msg at h
+  cases hf : s.live.find? (·.id == src) with
+  | none => rw [hf] at h; cases h
+  | some x => rw [hf] at h; simp only [Option.some.injEq] at h; subst h; rfl
+
+/-- a standard spawner told `reasonOf m` tries again exactly when `m` is not `MustDemobilize` -/
+theorem system_standard_respawns_iff (m : SysMsg) :
+    respawns .std (reasonOf m) = (if m = .mustDemobilize then 0 else 1) := by
+  cases m <;> decide
+
+/-- **C36.system_demobilise_never_respawns_standard** — end to end: whatever sources of a standard spawner
+    report `MustDemobilize` to the system, at whatever times (with registrations / idle notifications in
+    between), the events the system produces from them never make the pacing loop call `try_spawn` again
+    once the source has been spawned — in any environment, for every timing. -/
+theorem system_demobilise_never_respawns_standard {δ : Type} (envStep : δ → Std → (Answer × Nat) × δ)
+    (tie : Bool) (tClose fuel : Nat) (L : Loop (StdLoop δ)) (msgs : List (Nat × Nat × SysMsg))
+    (hs : L.sp.std.hasSpawned = true) (hm : ∀ x ∈ msgs, x.2.2 = SysMsg.mustDemobilize) :
+    attempts (run PERIOD tie (stdIface envStep) tClose fuel L
+      (msgs.map fun x => (x.1, Ev.removed x.2.1 (reasonOf x.2.2)))) = [] := by
+  apply standard_no_respawn_after_demobilize envStep tie tClose fuel L _ hs
+  intro x hx id r hr
+  obtain ⟨y, hy, rfl⟩ := List.mem_map.mp hx
+  simp only [Ev.removed.injEq] at hr
+  rw [← hr.2, hm y hy]; rfl
+
 /-! #### non-vacuity -/
 
 /-- an instant spawner that never completes, no events, channel closed at 3.5 s: calls at 0, 1, 2, 3 s -/
@@ -255,6 +293,14 @@ example : attempts (run PERIOD true stdSim 9000000000 20
     = [] := by
   decide +kernel
 
+/-- the system model on a pool (count 2) next to a standard spawner: the demobilised standard source is not
+    replaced, pool sources are -/
+example : ((Sys.start [.pool 2, .std]).1.msg .mustDemobilize 2).map (fun r => (r.2.1, r.2.2.1, r.2.2.2)) =
+      some (1, Reason.demobilized, 0) ∧
+    ((Sys.start [.pool 2, .std]).1.msg .mustDemobilize 0).map (fun r => (r.2.1, r.2.2.1, r.2.2.2)) =
+      some (0, Reason.demobilized, 1) := by
+  decide
+
 /-- `reresolve_history` with a non-trivial history -/
 example : ((srun Std.init [.spawn (some [(⟨1,123⟩, true)]), .remove .unreachable, .remove .networkIssue,
       .spawn none, .spawn (some [(⟨9,123⟩, false)])]).trySpawn (some [(⟨9,123⟩, false), (⟨2,123⟩, true)])).2 =
@@ -274,3 +320,5 @@ end NtpVerif.C36
 #print axioms NtpVerif.C36.standard_reresolve_after_unreachable
 #print axioms NtpVerif.C36.standard_network_issue_keeps_resolution
 #print axioms NtpVerif.C36.reresolve_history
+#print axioms NtpVerif.C36.system_reason_of_message
+#print axioms NtpVerif.C36.system_demobilise_never_respawns_standard
